@@ -31,9 +31,10 @@ LEVEL_TEXT = (
     "EVERY cut of it into non-empty reads and EVERY interleaving of producer, polling consumer and start of the final drain, if the "
     "drain loop is left then the fragments handed on are, joined, exactly the payload; C06_A_prefix — at every moment they are a "
     "prefix of it. B. PopenThread._alt_mode_writer (tell / seek END / write / seek back) against iterraw's unlocked readlines on "
-    "the same BytesIO: C06_B_partial (safe for all schedules in which no read lands between tell() and seek(0, END)), C06_B_locked "
-    "(all schedules once the reader takes the writer's lock), C06_B_cex (the code as it is duplicates data; driven into it on the "
-    "real threads; known finding). C. tee_stdout / the $() branch of iterraw / get_formatted_lines: C06_C_independent_partial "
+    "the same BytesIO: C06_B_locked (the code since /repo f545504 takes the writer's lock around readlines: ALL schedules are safe; "
+    "that the reader still takes the lock is checked every run and the real threads are driven through the counterexample's "
+    "schedule), C06_B_partial (without the lock: safe for all schedules in which no read lands between tell() and seek(0, END)), "
+    "C06_B_cex (the pinned snapshot's behaviour: duplicated data; fixed finding, a recurrence is a violation). C. tee_stdout / the $() branch of iterraw / get_formatted_lines: C06_C_independent_partial "
     "(whole-line fragmentations of the same bytes give the same lines/.out/.raw_out), C06_C_plain_exact, C06_C_stdout_path ($() is a "
     "function of the payload alone for all chunkings and schedules), C06_C_stdout_oneline, C06_raw_out; the unrestricted statement "
     "is false: C06_C_cex_crlf / _multibyte / _escape / _oneline / _crcrlf / _cr_onefragment / _stdout_vt (known findings). C06_rtn, C06_rtn_alias_table. "
@@ -431,7 +432,7 @@ def _barrier(on):
             p = super().tell()
             if threading.current_thread() is not threading.main_thread() and p < len(self.getvalue()):
                 self._xv_told = ev = threading.Event()
-                ev.wait(2)
+                ev.wait(0.6)
             return p
 
         def readlines(self, hint=-1):
@@ -1306,7 +1307,7 @@ def _unit_worker(item):
         import xonsh.procs.pipelines as L
 
         src = inspect.getsource(L.CommandPipeline.iterraw)
-        return {"runs": res, "writer_calls": writer_calls, "writer_result": [m.getvalue().decode(), m.tell()], "reader_takes_lock": ".lock" in src}
+        return {"runs": res, "writer_calls": writer_calls, "writer_result": [m.getvalue().decode(), m.tell()], "reader_takes_lock": ".lock" in src or '"lock"' in src}
     raise ValueError(kind)
 
 
@@ -1477,6 +1478,9 @@ def stream_membuf(ctx, n, name="membuf-ops"):
     ctx.extra["reader_takes_writer_lock"] = real["reader_takes_lock"]
     if real["writer_calls"] != want_calls or real["writer_result"] != ["abcxy", 1]:
         ctx.disagree(name, {"what": "statement sequence of PopenThread._alt_mode_writer on an instrumented BytesIO"}, {"calls": real["writer_calls"], "result": real["writer_result"]}, {"calls": want_calls, "result": ["abcxy", 1]})
+    if not real["reader_takes_lock"]:
+        # C06_B_locked is the theorem claimed for the current code: its hypothesis is that iterraw reads under PopenThread.lock
+        ctx.disagree(name, {"what": "CommandPipeline.iterraw takes the proc's lock around readlines (hypothesis of C06_B_locked)"}, False, True)
     return real["reader_takes_lock"]
 
 
@@ -1599,7 +1603,9 @@ def replay_known(ctx):
         obs = run_batch([case], timeout=10 if name == "stderr" else 40)[0]
         judge_special(ctx, "known-witness", case, obs)
         mine = [sf for sf in ctx.spec_failures[before:]]
-        fails = any(sf["key"] == f["key"] for sf in mine)
+        # an open finding must still show ITS failure; the witness of a fixed finding must pass altogether (whatever fails there is
+        # recorded above with a key that is not an open one, i.e. it is a violation)
+        fails = bool(mine) if str(f.get("status", "")).startswith("fixed") else any(sf["key"] == f["key"] for sf in mine)
         ctx.replayed(f["key"], fails, {"observed": [{"why": sf["why"], "key": sf["key"]} for sf in mine][:4]})
 
 
@@ -1638,7 +1644,7 @@ def run(ctx):
         "liveness is observed with timeouts (40 s per program), not proved; a hang is reported as a property failure",
         "payloads never contain an alternate-screen switch (ESC[?1049h / ?47h / ?1047h and their l forms): xonsh diverts those to the terminal on purpose",
         "$XONSH_ENCODING=utf-8, $XONSH_ENCODING_ERRORS=surrogateescape, $XONSH_SUBPROC_OUTPUT_FORMAT=stream_lines, $THREAD_SUBPROCS=True, $XONSH_CAPTURE_ALWAYS=False (the defaults)",
-        "general streams use at most one callable-alias stage per pipeline (two concurrent alias threads can close the real stderr: known finding); the alias-pipelines stream lifts that",
+        "general streams use at most one callable-alias stage per pipeline (two concurrent alias threads swap the process-global sys.stdout/sys.stderr under each other: known finding); the alias-pipelines stream lifts that",
     ]
     ctx.trusted_base += [
         "the statements in lean/XonshVerif/Props/C06.lean and the hand-written models in Model/Capture.lean (tied to the code by correspondence, not translated)",
